@@ -44,7 +44,7 @@ def parseCfg (s : String) : Option Cfg :=
   if s == "current" then some Cfg.current
   else if s == "legacy" then some Cfg.legacy
   else match s.toList.mapM (fun c => if c == '1' then some true else if c == '0' then some false else none) with
-    | some [a, b, c, d, e] => some ⟨a, b, c, d, e⟩
+    | some [a, b, c, d, e, f] => some ⟨a, b, c, d, e, f⟩
     | _ => none
 
 def words (s : String) : List String := (s.splitOn " ").filter (· != "")
